@@ -1399,3 +1399,69 @@ func viewCloneIndependence(r *Run, rule string) {
 		}())
 	}
 }
+
+// closureComparesHeaderHash: c is a predicate closure `func(ph) bool { return ph.Header.Hash == h }`
+// whose captured h is, in the enclosing function, the voting view's most voted precommit hash.
+func closureComparesHeaderHash(w *World, a *FnA, c *Shape) bool {
+	if c == nil || !strings.HasPrefix(c.String(), "closure:") {
+		return false
+	}
+	name := strings.TrimPrefix(c.String(), "closure:")
+	var fn *ssa.Function
+	for _, f := range w.AllFuncs {
+		if f.Parent() != nil && FuncName(f) == name {
+			fn = f
+		}
+	}
+	if fn == nil || len(fn.FreeVars) == 0 {
+		return false
+	}
+	ca := w.A(fn)
+	fv := ""
+	for _, ret := range ca.Returns() {
+		p := NormPred(ca.sh.Of(ret.Results[0]))
+		if p.Op != "==" || p.Neg {
+			return false
+		}
+		l, rr := p.L.String(), p.R.String()
+		if rr == "p0.Header.Hash" {
+			l, rr = rr, l
+		}
+		if l != "p0.Header.Hash" || !strings.HasPrefix(rr, "^") {
+			return false
+		}
+		fv = strings.TrimPrefix(rr, "^")
+	}
+	if fv == "" {
+		return false
+	}
+	// the captured variable's value in the enclosing function
+	ok := false
+	a.Instrs(func(in ssa.Instruction) {
+		mc, isMC := in.(*ssa.MakeClosure)
+		if !isMC || mc.Fn != ssa.Value(fn) {
+			return
+		}
+		for i, free := range fn.FreeVars {
+			if free.Name() != fv || i >= len(mc.Bindings) {
+				continue
+			}
+			al, isAl := mc.Bindings[i].(*ssa.Alloc)
+			if !isAl || al.Referrers() == nil {
+				continue
+			}
+			stores, good := 0, 0
+			for _, ref := range *al.Referrers() {
+				if st, isSt := ref.(*ssa.Store); isSt && st.Addr == ssa.Value(al) {
+					stores++
+					v := a.sh.Of(st.Val).String()
+					if strings.HasSuffix(v, ".VoteSummary.MostVotedPrecommitHash") && strings.Contains(v, ".Voting.") {
+						good++
+					}
+				}
+			}
+			ok = stores > 0 && stores == good
+		}
+	})
+	return ok
+}
